@@ -1,6 +1,9 @@
 # Copyright 2020 National Technology & Engineering Solutions of Sandia, LLC (NTESS).
 # Under the terms of Contract DE-NA0003525 with NTESS, the U.S. Government retains
 # certain rights in this software.
+from numbers import Integral, Real
+
+from jaqalpaq.error import JaqalError
 from jaqalpaq.core import (
     GateStatement,
     BlockStatement,
@@ -190,10 +193,18 @@ def generate_jaqal_value(val):
         or isinstance(val, AnnotatedValue)
     ):
         return val.name
-    elif isinstance(val, float) or isinstance(val, int):
+    # Numbers of other types (e.g. numpy scalars) are written like the
+    # builtin number they are equal to.
+    if not isinstance(val, (int, float)):
+        if isinstance(val, Integral):
+            val = int(val)
+        elif isinstance(val, Real):
+            val = float(val)
+    if isinstance(val, float) or isinstance(val, int):
         text = str(val)
         if "e" in text and "." not in text:
             # A Jaqal number needs a decimal point, which Python omits
             # from some values in exponent form: 1e-06 -> 1.0e-06
             text = text.replace("e", ".0e")
         return text
+    raise JaqalError(f"Cannot write {val!r} as a Jaqal value")
